@@ -75,6 +75,82 @@ G2GenOK(x, y) ==
   /\ SW2On(G2Gen, G2BReal)
   /\ SW2Mul(Qm, G2Gen) = SWInf /\ G2Gen # SWInf            \* order exactly q
 
+\* ---- the tower Fp6 = Fp2[v]/(v^3 - u), Fp12 = Fp6[w]/(w^2 - v) and the pairing itself -------------
+\* An Fp6 element is <<c0, c1, c2>> (c0 + c1 v + c2 v^2, ci in Fp2), an Fp12 element <<d0, d1>> (d0 + d1 w).
+F2One == <<MOne(Pm), MZero(Pm)>>
+F2MulXi(a) == << MMul(Pm, Beta2, a[2]), a[1] >>                       \* (a0 + a1 u) u = -5 a1 + a0 u
+F6Zero == <<F2Zero, F2Zero, F2Zero>>
+F6One == <<F2One, F2Zero, F2Zero>>
+F6Add(a, b) == << F2Add(a[1], b[1]), F2Add(a[2], b[2]), F2Add(a[3], b[3]) >>
+F6Sub(a, b) == << F2Sub(a[1], b[1]), F2Sub(a[2], b[2]), F2Sub(a[3], b[3]) >>
+F6Neg(a) == << F2Neg(a[1]), F2Neg(a[2]), F2Neg(a[3]) >>
+F6Mul(a, b) ==
+  LET t11 == F2Mul(a[1], b[1]) t12 == F2Mul(a[1], b[2]) t13 == F2Mul(a[1], b[3])
+      t21 == F2Mul(a[2], b[1]) t22 == F2Mul(a[2], b[2]) t23 == F2Mul(a[2], b[3])
+      t31 == F2Mul(a[3], b[1]) t32 == F2Mul(a[3], b[2]) t33 == F2Mul(a[3], b[3])
+  IN << F2Add(t11, F2MulXi(F2Add(t23, t32))),
+        F2Add(F2Add(t12, t21), F2MulXi(t33)),
+        F2Add(F2Add(t13, t22), t31) >>
+F6MulV(a) == << F2MulXi(a[3]), a[1], a[2] >>                          \* times v
+F6Inv(a) ==
+  LET t0 == F2Sub(F2Mul(a[1], a[1]), F2MulXi(F2Mul(a[2], a[3])))
+      t1 == F2Sub(F2MulXi(F2Mul(a[3], a[3])), F2Mul(a[1], a[2]))
+      t2 == F2Sub(F2Mul(a[2], a[2]), F2Mul(a[1], a[3]))
+      di == F2Inv(F2Add(F2Mul(a[1], t0), F2MulXi(F2Add(F2Mul(a[3], t1), F2Mul(a[2], t2)))))
+  IN << F2Mul(t0, di), F2Mul(t1, di), F2Mul(t2, di) >>
+F12One == <<F6One, F6Zero>>
+F12Mul(a, b) == << F6Add(F6Mul(a[1], b[1]), F6MulV(F6Mul(a[2], b[2]))),
+                   F6Add(F6Mul(a[1], b[2]), F6Mul(a[2], b[1])) >>
+F12Sq(a) == LET t == F6Mul(a[1], a[2]) IN                             \* (a0 + a1 w)^2, w^2 = v
+  << F6Sub(F6Sub(F6Mul(F6Add(a[1], a[2]), F6Add(a[1], F6MulV(a[2]))), t), F6MulV(t)), F6Add(t, t) >>
+F12Conj(a) == << a[1], F6Neg(a[2]) >>                                 \* = a^(p^6)
+F12Inv(a) == LET di == F6Inv(F6Sub(F6Mul(a[1], a[1]), F6MulV(F6Mul(a[2], a[2])))) IN
+  << F6Mul(a[1], di), F6Neg(F6Mul(a[2], di)) >>
+\* a^e, e given by its little-endian bit sequence, most significant bit first
+RECURSIVE F12PowR(_, _, _, _)
+F12PowR(a, bits, i, acc) ==
+  IF i = 0 THEN acc
+  ELSE LET sq == F12Sq(acc)
+           nx == IF bits[i] = 1 THEN F12Mul(sq, a) ELSE sq
+       IN IF nx = nx THEN F12PowR(a, bits, i - 1, nx) ELSE acc
+F12Pow(a, e) == LET bits == NBits(e) IN F12PowR(a, bits, Len(bits), F12One)
+
+\* Miller loop of the ate pairing f_{x,Q}(P), x = BlsXReal, P on E(Fp): y^2 = x^3 + 1, Q on the D-type twist
+\* E'(Fp2): y^2 = x^3 + 1/u, untwisted by (x', y') -> (x' w^2, y' w^3).  The line through T (slope lam in Fp2,
+\* taken on the twist) evaluated at P is  yP - lam xP w + (lam xT - yT) w^3,  w^3 = v w.
+LineAt(lam, T, Pt) == << << <<Pt[2], MZero(Pm)>>, F2Zero, F2Zero >>,
+                        << F2Neg(<<MMul(Pm, lam[1], Pt[1]), MMul(Pm, lam[2], Pt[1])>>), F2Sub(F2Mul(lam, T[1]), T[2]), F2Zero >> >>
+SlopeDbl(T) == F2Mul(F2Mul(F2Three, F2Mul(T[1], T[1])), F2Inv(F2Add(T[2], T[2])))
+SlopeAdd(T, Q) == F2Mul(F2Sub(Q[2], T[2]), F2Inv(F2Sub(Q[1], T[1])))
+StepPoint(lam, T, Q) == LET x3 == F2Sub(F2Sub(F2Mul(lam, lam), T[1]), Q[1]) IN << x3, F2Sub(F2Mul(lam, F2Sub(T[1], x3)), T[2]) >>
+RECURSIVE MillerR(_, _, _, _, _, _)
+MillerR(Pt, Q, bits, i, T, f) ==
+  IF i = 0 THEN f
+  ELSE LET l1 == SlopeDbl(T)
+           f1 == F12Mul(F12Sq(f), LineAt(l1, T, Pt))
+           T1 == StepPoint(l1, T, T)
+           l2 == SlopeAdd(T1, Q)
+           f2 == IF bits[i] = 1 THEN F12Mul(f1, LineAt(l2, T1, Pt)) ELSE f1
+           T2 == IF bits[i] = 1 THEN StepPoint(l2, T1, Q) ELSE T1
+       IN IF f2 = f2 /\ T2 = T2 THEN MillerR(Pt, Q, bits, i - 1, T2, f2) ELSE f
+Miller(Pt, Q) == LET bits == NBits(BlsXReal) IN MillerR(Pt, Q, bits, Len(bits) - 1, Q, F12One)
+\* Final exponentiation.  NAMED DEVIATION (CubedFinalExp): the arkworks BLS12 engine -- the reference and hence
+\* the crate's -- raises to 3 (p^12 - 1)/q, the CUBE of the reduced ate pairing (cubing is an automorphism of
+\* the order-q group GT).  3 (p^12 - 1)/q = (p^6 - 1) (p^2 + 1) * 3 (p^4 - p^2 + 1)/q.
+P2 == NMul(Pm, Pm)
+HardNum == NMul(NFromNat(3), NAdd(NSub(NMul(P2, P2), P2), NFromNat(1)))
+ASSUME NMod(HardNum, Qm) = NMod(NFromNat(0), Qm)                       \* q divides the cyclotomic value
+HardExp == NDiv(HardNum, Qm)
+FinalExp(f) == LET f1 == F12Mul(F12Conj(f), F12Inv(f))
+                   f2 == F12Mul(F12Pow(f1, P2), f1)
+               IN F12Pow(f2, HardExp)
+PairingSpec(Pt, Q) == IF Pt = SWInf \/ Q = SWInf THEN F12One ELSE FinalExp(Miller(Pt, Q))
+F12Bytes(a) == BNPad(a[1][1][1], 48) \o BNPad(a[1][1][2], 48) \o BNPad(a[1][2][1], 48) \o BNPad(a[1][2][2], 48)
+            \o BNPad(a[1][3][1], 48) \o BNPad(a[1][3][2], 48) \o BNPad(a[2][1][1], 48) \o BNPad(a[2][1][2], 48)
+            \o BNPad(a[2][2][1], 48) \o BNPad(a[2][2][2], 48) \o BNPad(a[2][3][1], 48) \o BNPad(a[2][3][2], 48)
+F12Of(u) == LET c(i) == NMod(SubSeq(u, 48 * (i - 1) + 1, 48 * i), Pm) IN
+  << << <<c(1), c(2)>>, <<c(3), c(4)>>, <<c(5), c(6)>> >>, << <<c(7), c(8)>>, <<c(9), c(10)>>, <<c(11), c(12)>> >> >>
+
 \* ---- the observation tables -----------------------------------------------------
 Rec == ndJsonDeserialize(IOEnv.TRACE)
 VARIABLES l, tab
@@ -94,12 +170,40 @@ TGen == IsEvent("blsgen") /\ LET e == Rec[l] IN
           /\ (e.grp = "G1") => (G1GenOK(e.x, e.y) /\ NEq(e.xr, G1xReal) /\ NEq(e.yr, G1yReal))
           /\ (e.grp = "G2") => G2GenOK(e.x, e.y)
           /\ Observe(e.grp, MOne(Qm), e.ours)                         \* the generator is exponent 1
+\* The scalar multiple itself is recomputed here from the generator with the affine group law above (G1 over
+\* Fp, G2 over Fp2) and compared with the coordinates in the uncompressed serialisation: x then y, each
+\* coordinate 48 bytes little-endian per Fp component (c0 then c1 over Fp2); the top two bits of the very last
+\* byte are flags (bit 6 = point at infinity).
+Coord(u, i) == SubSeq(u, 48 * (i - 1) + 1, 48 * i)
+NoFlags(c) == [c EXCEPT ![48] = c[48] % 64]
+InfFlag(u) == (u[Len(u)] \div 64) % 2 = 1
+MulGrounded(e, key) ==
+  LET u == e.ours_unc IN
+  IF e.grp = "G1"
+  THEN LET pt == SWMul(key, G1Gen) IN
+       /\ Len(u) = 96
+       /\ IF pt = SWInf THEN InfFlag(u)
+          ELSE ~InfFlag(u) /\ NEq(Coord(u, 1), pt[1]) /\ NEq(NoFlags(Coord(u, 2)), pt[2])
+  ELSE LET pt == SW2Mul(key, G2Gen) IN
+       /\ Len(u) = 192
+       /\ IF pt = SWInf THEN InfFlag(u)
+          ELSE /\ ~InfFlag(u)
+               /\ NEq(Coord(u, 1), pt[1][1]) /\ NEq(Coord(u, 2), pt[1][2])
+               /\ NEq(Coord(u, 3), pt[2][1]) /\ NEq(NoFlags(Coord(u, 4)), pt[2][2])
 TMul == IsEvent("blsmul") /\ LET e == Rec[l] key == SumTerms(e.terms, 1, MZero(Qm)) IN
           /\ e.ours = e.ref /\ e.ours_unc = e.ref_unc /\ e.cross
+          /\ (Has(e, "ground") => MulGrounded(e, key))
           /\ e.ours_sum = e.ours                                       \* (sum of scalars) * G = sum of (scalar * G)
           /\ Observe(e.grp, key, e.ours)
+\* grounded pairing events: the output is recomputed here -- a*G1 and b*G2 by the affine group laws, then
+\* Miller loop and final exponentiation above -- and compared byte for byte; and e(G1,G2)^(ab) is recomputed
+\* by exponentiation in Fp12 from the recorded e(G1,G2)
+PairGrounded(e) == e.ours = F12Bytes(PairingSpec(SWMul(NMod(e.a, Qm), G1Gen), SW2Mul(NMod(e.b, Qm), G2Gen)))
+PowGrounded(e, key) == e.ours = F12Bytes(F12Pow(F12Of(e.gt), key))
 TPair == IsEvent("blspair") /\ LET e == Rec[l] key == MMul(Qm, NMod(e.a, Qm), NMod(e.b, Qm)) IN
           /\ e.ours = e.ref /\ e.ours_pow = e.ref_pow
+          /\ (Has(e, "ground") => PairGrounded(e))
+          /\ (Has(e, "gt") => PowGrounded(e, key))
           /\ e.ours_pow = e.ours                                       \* e(aG1, bG2) = e(G1, G2)^(ab)
           /\ Observe("GT", key, e.ours)
 \* configuration constants of the tower and the two curves: identical to the reference engine's
